@@ -779,6 +779,35 @@ def features(S):
 # generators
 
 
+SPECIAL_RELPATHS = ["back\\slash", "dir\\file.txt", "a\\b\\c", ".hidden", "sub/..x", "with space/na me",
+                    "\u00e9/\u65e5\u672c", 'quo"te', "tab\there", "ctl\x01x", "sub/.dot", " lead", "trail "]
+TWINS = [("sub/data", "sub\\data"), ("a/b/c", "a\\b\\c"), ("x/y", "x\\y"), ("t/u/v", "t/u\\v")]
+
+
+def special_relpaths(rng, lst):
+    """relpath SHAPES (in place): ~20% of the listings get a special name (backslash, leading dots,
+    spaces, unicode, characters json escapes), ~8% a twin pair `x/y` vs `x\\y` naming two different
+    files.  Stored relpaths are opaque strings for the harness: the listing the model and the closure
+    audit use is json.loads of the real bytes."""
+    used = {rp for rp, _ in lst}
+    if lst and rng.random() < 0.2:
+        for _ in range(rng.choice([1, 1, 2])):
+            name = rng.choice(SPECIAL_RELPATHS)
+            if name not in used:
+                i = rng.randrange(len(lst))
+                used.discard(lst[i][0])
+                lst[i][0] = name
+                used.add(name)
+    distinct = list(dict.fromkeys(f for _, f in lst))
+    if len(distinct) >= 2 and rng.random() < 0.08:
+        a, b = rng.choice(TWINS)
+        if a not in used and b not in used:
+            fa, fb = rng.sample(distinct, 2)
+            ia = next(i for i, e in enumerate(lst) if e[1] == fa)
+            ib = next(i for i, e in enumerate(lst) if e[1] == fb)
+            lst[ia][0], lst[ib][0] = a, b
+
+
 def gen_universe(rng, prop):
     """files, listings and the source/cache stores of one scenario"""
     salt = "%08x" % rng.getrandbits(32)
@@ -807,6 +836,7 @@ def gen_universe(rng, prop):
                 lst.append([rng.choice(["", "sub/", f"s{j}/"]) + f"p{n}", f])
             if rng.random() < 0.35:
                 lst.append(["dup/again", rng.choice(chosen)])
+            special_relpaths(rng, lst)
             key = tuple(sorted((rp, f) for rp, f in lst))
             if key not in seen:
                 seen.add(key)
@@ -1159,6 +1189,57 @@ def probe_uploads(ctx, case):
         S.close()
 
 
+def probe_round(ctx, case):
+    """fault-free run on a fresh destination without destination index: (upload tokens in order,
+    directory-loop order as tokens)"""
+    S = Scenario(ctx, {**case, "dix": False, "rounds": []})
+    try:
+        ob = S.run_round({"fails": [], "crash": None, "reset": True})
+        return [S.tok[o] for o in ob["putorder"]], [S.tok[o] for o in ob["dirorder"]]
+    finally:
+        S.close()
+
+
+CHAIN_LETTER = {"d0.dir": "A", "d1.dir": "B", "d2.dir": "C", "d3.dir": "D"}
+
+
+def chain_case(salt, shallow, n=3, prop="C04"):
+    """a sharing chain A -f- B -g- C (-h- D): consecutive directories share exactly one file
+    (A=[a,f], B=[f,g,b], C=[g,c(,h)], D=[h,e]); closed request (every directory with all its files,
+    or directories only, expanded)"""
+    names = ["a", "f", "b", "g", "c"] + (["h", "e"] if n == 4 else [])
+    files = {f"f{i}": f"{salt}-chain-{nm}".encode().hex() for i, nm in enumerate(names)}
+    dirs = {"d0.dir": [["a", "f0"], ["shared/f", "f1"]],
+            "d1.dir": [["f", "f1"], ["g", "f3"], ["own/b", "f2"]],
+            "d2.dir": [["g", "f3"], ["c", "f4"]]}
+    if n == 4:
+        dirs["d2.dir"].append(["h", "f5"])
+        dirs["d3.dir"] = [["h", "f5"], ["e", "f6"]]
+    req = list(dirs) + (list(files) if shallow else [])
+    return {"prop": prop, "files": files, "dirs": dirs, "src": {t: None for t in list(files) + list(dirs)},
+            "cache": None, "dst": {}, "req": req, "shallow": shallow, "verify": False, "src_cls": "local",
+            "dst_cls": "local", "dix": False, "six": False, "rounds": []}
+
+
+def chain_order(dirorder_tokens):
+    """the relative order of A, B, C in an observed directory-loop order"""
+    return "".join(CHAIN_LETTER[t] for t in dirorder_tokens if CHAIN_LETTER.get(t) in ("A", "B", "C"))
+
+
+CORPUS_CHAIN_SALT = "c6"
+
+
+def corpus_chain(ctx, shallow=True):
+    """a 3-chain whose directory loop runs A, B, C (the salt was searched offline; the order is
+    re-observed here and the search repeated should it have changed)"""
+    for salt in [CORPUS_CHAIN_SALT] + ["c%d" % i for i in range(1, 200)]:
+        case = chain_case(salt, shallow)
+        _ups, order = probe_round(ctx, case)
+        if chain_order(order) == "ABC":
+            return case, salt
+    return None, None
+
+
 def run_scenario(ctx, case, crash_all=False, crash_some=0):
     """run case["rounds"]; optionally append crash rounds (one per abort point of the round that
     precedes them, each on a fresh copy of the initial destination).  Returns the Scenario (run,
@@ -1281,6 +1362,20 @@ def builtin_corpus(prop):
                     "dst_cls": cls, "dix": False, "six": False, "dst_state": True,
                     "rounds": [{"fails": [], "crash": None, "reset": True},
                                {"fails": [], "crash": None, "reset": False}]})
+    if prop == "C04":
+        # seeded change C04/r4m1: relpaths are opaque - `sub/data` and a file literally named
+        # `sub\\data` (and `a/b/c` vs `a\\b\\c`) are different entries; every single-file failure
+        ft = {"f0": hx(b"slash twin"), "f1": hx(b"backslash twin"), "f2": hx(b"deep slash"), "f3": hx(b"deep backslash")}
+        dt = {"d0.dir": [["sub/data", "f0"], ["sub\\data", "f1"], ["z", "f2"]],
+              "d1.dir": [["a/b/c", "f2"], ["a\\b\\c", "f3"]]}
+        for cls in ("local", "base"):
+            for bad in ft:
+                out.append({"prop": prop, "files": ft, "dirs": dt, "src": {t: None for t in list(ft) + list(dt)},
+                            "cache": None, "dst": {}, "req": ["d0.dir", "d1.dir", "f0", "f1", "f2", "f3"],
+                            "shallow": True, "verify": False, "src_cls": "base", "dst_cls": cls,
+                            "dix": cls == "base" and bad == "f0", "six": False,
+                            "rounds": [{"fails": [bad], "crash": None, "reset": True},
+                                       {"fails": [], "crash": None, "reset": False}]})
     if prop != "C11":
         return out
     # seeded change C11/r3m2: an id that exists on neither side is reported missing in EVERY round,
